@@ -106,6 +106,10 @@ pub enum Event {
     HandlerDisallow { obs: u32 },
     /// a node-level on_update handler ran (kind: 0 Necessary, 1 Changed, 2 Invalidated, 3 Unnecessary)
     NodeNotify { tag: Tag, handler: u32, kind: u8, value: Option<crate::val::Val> },
+    /// a handler unsubscribed its own subscription (through its observer or through the state)
+    HandlerUnsubscribed { sub: u32 },
+    /// a handler subscribed a further handler (id `sub`) on its own observer
+    HandlerSubscribed { sub: u32 },
     /// a subscription handler created a new observer (index in the observer table) on a node
     HandlerObserved { obs: u32, node: Tag },
     /// a writer closure dropped its Var handle right after a deferred write
